@@ -135,6 +135,7 @@ check_conf_dir(econf_file ***key_files, size_t *size, const char *path,
           (*key_files)[(*size) - 1] = key_file;
           *key_files = realloc(*key_files, ++(*size) * sizeof(econf_file *));
         } else {
+	  econf_free(key_file);
 	  for (int k = i; k < num_dirs; k++)
 	    free(de[k]);
 	  free(de);
